@@ -751,6 +751,40 @@ def r00(ctx, repo, files=None):
                         'contribution survives (a block shared by all '
                         'elements must be accumulated)' % (
                             norm_stmt(st)[:60], t_.value.id))
+        # L31: `x = x.get_population_model()` (a wrapper replaced by what it
+        # wraps, e.g. to walk its sub-models) followed by an evaluation /
+        # sampling call on x: the parameter vector at hand is the
+        # *wrapper's* (fixed parameters removed, covariate coefficients
+        # appended), not the wrapped model's
+        UNWRAP = ('get_population_model', 'get_error_model',
+                  'mechanistic_model', 'get_predictive_model')
+        EVALS_ = ('sample', 'compute_log_likelihood', 'compute_sensitivities',
+                  'compute_individual_parameters', 'compute_pointwise_ll',
+                  'simulate', 'get_mean_and_std')
+        for a_ in ast.walk(fn):
+            if not (isinstance(a_, ast.Assign) and len(a_.targets) == 1
+                    and isinstance(a_.targets[0], ast.Name)
+                    and isinstance(a_.value, ast.Call)
+                    and isinstance(a_.value.func, ast.Attribute)
+                    and a_.value.func.attr in UNWRAP
+                    and U(a_.value.func.value) == a_.targets[0].id):
+                continue
+            x_ = a_.targets[0].id
+            for c in ast.walk(fn):
+                if isinstance(c, ast.Call) and isinstance(
+                        c.func, ast.Attribute) and c.func.attr in EVALS_ \
+                        and U(c.func.value) == x_ \
+                        and c.lineno > a_.lineno:
+                    bad += 1
+                    ctx.violation(
+                        rule, repo.loc(c, cls, fn.name), construct,
+                        'L31 evaluation after unwrap %s' % x_,
+                        '`%s` is evaluated after `%s` replaced the wrapper '
+                        'by the model it wraps: the vector handed over was '
+                        'built for the wrapper (fixed parameters removed / '
+                        'covariate coefficients included)' % (
+                            U(c)[:50], norm_stmt(a_)[:50]))
+                    break
         # L12: squeeze without axis turns a length-1 input into a 0-d
         # array (len() and indexing then fail)
         pset = {a.arg for a in fn.args.args + fn.args.kwonlyargs} - {'self'}
